@@ -223,9 +223,12 @@ def specs() -> List[Dict[str, Any]]:
                       singleton="no mines: one possible instance" if m == 0 else ""))
 
     # ---- sudoku --------------------------------------------------------------------------------
-    for name in ("very-easy", "mixed"):
+    # "very-easy[:1]" / "[:2]": minimum-size databases (the first 1 / 2 boards) - an index drawn one past the end
+    # has probability 1/2 and 1/3 there, 1/1001 on the shipped database
+    for name in ("very-easy", "mixed", "very-easy[:1]", "very-easy[:2]"):
         S.append(spec(f"sudoku.DatabaseGenerator[{name}]", f"G.sudoku.DatabaseGenerator(SUDOKU_DB)", "sudoku",
-                      "sudoku.DatabaseGenerator", dict(database=name), prepare="mc.checks.c10.prepare_sudoku"))
+                      "sudoku.DatabaseGenerator", dict(database=name), prepare="mc.checks.c10.prepare_sudoku",
+                      singleton="a database of one board: one possible instance" if name.endswith("[:1]") else ""))
     S.append(spec("sudoku.DummyGenerator()", "G.sudoku.DummyGenerator()", "sudoku", "sudoku.DummyGenerator",
                   dict(database=None), random=False, k_quick=8, k_thorough=32))
 
@@ -331,8 +334,10 @@ def prepare_pacman(sp: Dict[str, Any], ctx: Dict[str, Any]) -> Dict[str, Any]:
 def load_sudoku_db(name: str) -> np.ndarray:
     import jumanji.environments.logic.sudoku as pkg
 
-    fn = {"very-easy": "1000_very_easy_puzzles.npy", "mixed": "10000_mixed_puzzles.npy"}[name]
-    return np.load(os.path.join(os.path.dirname(pkg.__file__), "data", fn))
+    base, _, cut = name.partition("[:")
+    fn = {"very-easy": "1000_very_easy_puzzles.npy", "mixed": "10000_mixed_puzzles.npy"}[base]
+    db = np.load(os.path.join(os.path.dirname(pkg.__file__), "data", fn))
+    return db[: int(cut.rstrip("]"))] if cut else db
 
 
 # ------------------------------------------------------------------------------------------------
